@@ -392,7 +392,9 @@ func RunCheck(opt Options) int {
 		// known finding?
 		for _, kf := range known {
 			if !kf.Fixed && kf.Prop == opt.Prop && kf.Obligation == name {
-				if kf.Class == "" || ob == nil || kf.Class == classify(P, ob) {
+				// a counterexample that cannot be classified (no model from the solver on this
+				// run) is identified by its obligation alone
+				if cl := classify(P, ob); kf.Class == "" || ob == nil || cl == "" || kf.Class == cl {
 					line := fmt.Sprintf("KNOWN-FINDING: property=%s obligation=%s %s", opt.Prop, name, kf.Text)
 					for _, k := range knownHit {
 						if k == line {
@@ -415,8 +417,9 @@ func RunCheck(opt Options) int {
 	}
 	for _, rep := range reports {
 		if rep.Full {
-			for _, se := range rep.SpecErrors {
-				report(rep.Name+"/spec", "contract expression cannot be evaluated: "+se, nil)
+			if len(rep.SpecErrors) > 0 {
+				// one violation per function: the replay file lists every clause that no longer binds
+				report(rep.Name+"/spec", "contract expressions cannot be evaluated against the current source (the contract names something that is gone or changed type):\n  "+strings.Join(uniq(rep.SpecErrors), "\n  "), nil)
 			}
 			if rep.Capped {
 				report(rep.Name+"/out-of-reach", "path cap exceeded or engine failure: "+strings.Join(rep.Unsupported, "; "), nil)
@@ -573,6 +576,13 @@ func RunCheck(opt Options) int {
 				status = "FAIL(" + nr.Failed[0].Result.Status + ")"
 			}
 			fmt.Printf("  %-8s %s  [%d inst, %.2fs] %s\n", status, n, nr.Instances, nr.TimeS, nr.Pos)
+			if os.Getenv("GOWP_DEBUG") == "trail" {
+				for _, ob := range obs {
+					if ob.Name == n {
+						fmt.Printf("           path %s: %s (%s)\n", ob.Trail, ob.Result.Status, ob.Result.Backend)
+					}
+				}
+			}
 			if len(nr.Failed) > 0 && nr.Failed[0].Goal.Op == "and" {
 				// which conjuncts fail?
 				f := nr.Failed[0]
